@@ -180,8 +180,12 @@ def _mutation_wrapper(
     @wraps(method)
     def wrapped(*args, **kwargs):
         with MutationContext(module, method, attribute):
-            # This handles the case of an `EvolvableWrapper`
-            if attribute not in module.mutation_methods:
+            # Skip mutation methods that have been disabled. NOTE: The methods of a module held by
+            # an `EvolvableWrapper` are disabled on the module because the wrapper exposes them,
+            # but the wrapper's methods *are* these methods, so they must still run.
+            if attribute not in module.mutation_methods and not getattr(
+                module, "_mutations_delegated", False
+            ):
                 module.last_mutation_attr = None
                 module.last_mutation = None
                 return
@@ -703,6 +707,7 @@ class EvolvableWrapper(EvolvableModule):
         # Disable mutations in the wrapped module since these are
         # now handled by the wrapper
         module.disable_mutations()
+        module._mutations_delegated = True
         self._wrapped = module
 
     @property
